@@ -43,7 +43,7 @@ CHECKS = {
             "Goldens come from one revision (9bc2998); pairs whose configuration payload is typed by the stored scalar are format-incompatible and excluded.", "DESIGN.md section 4 C07"),
     "C08": ("fault_enumeration", "fault-injecting stream buffer + outcome classification under ASan+UBSan (assertions on/off) + valgrind memcheck error deltas",
             "Complete enumeration of truncation points of representative dumps, every magic/tag/width word with sampled replacements, a stream failing at the "
-            "n-th read for every n (EOF-style and throwing), pre-failed streams, and all ordered pairs of format-incompatible stacks; the only accepted outcome is a std::exception.",
+            "n-th read for every n (EOF-style and throwing), pre-failed streams (truncations and failing reads also on streams with an exception mask set), all ordered pairs of format-incompatible stacks, and a ladder of dimension mismatches; a loader that does not return is a violation (watchdog); the only accepted outcome is a std::exception.",
             "The element-count word is not corrupted (the property does not promise it); memcheck sees uninitialised, not stale, data.", "DESIGN.md section 4 C08"),
     "C17": ("exploration", SAN + "configuration read-back monitor over generated stacks + coinciding-type towers for the positional helper",
             "Per layer, the reported configuration equals the one passed in (directly and via make_parameter_pack_for); a field rebuilt from reported configurations "
